@@ -220,6 +220,15 @@ def check(spec):
         count("order-dependent-transform-weak-check")
         weak_compare(got, want, sig)
         return
+    if len(case.pdf) == 0 and hasattr(want, "index") and hasattr(got, "index") and meta is not None:
+        # zero-row input: pandas' transform returns an UNNAMED empty index there (it keeps the name as soon as there is
+        # a row); dask announces and returns the named one.  Accepted only when dask agrees with its own lazy meta.
+        # (the same holds for the index type: a RangeIndex instead of the frame's DatetimeIndex / str index)
+        same_as_meta = list(got.index.names) == list(meta.index.names) and got.index.dtype == meta.index.dtype
+        if len(want) == 0 and len(got) == 0 and same_as_meta and (want.index.names != got.index.names or want.index.dtype != got.index.dtype):
+            count("zero-rows-transform-index-relaxed")
+            want = want.copy()
+            want.index = got.index[:0]
     D.compare(got, want, meta, check_order=False, **kw)
 
 
